@@ -18,6 +18,8 @@ def run(ctx):
     # same ids in another order included
     rc = histcorr.run(dict(ctx, pid=ctx['pid'] + 'col'), n_quick=100, n_thorough=800, extra=('--columns',))
     v, n = histcorr.oracle_transparent(rc['cases'])
+    v_ids, n_ids = histcorr.oracle_ids_stable(rc['cases'])
+    v, n = v + v_ids, n + n_ids
     per = {}
     for x in v:
         per[x['signature']] = per.get(x['signature'], 0) + 1
